@@ -363,7 +363,7 @@ def main():
     ex.shutdown()
     run.log("fits done")
 
-    fit_cases, final_cases, initial_cases, inbox_cases, gap_cases = [], [], [], [], []
+    fit_cases, final_cases, initial_cases, inbox_cases, gap_cases, fromini_cases = [], [], [], [], [], []
     cert = []
     for spec, o in zip(specs, obs):
         key = vlib.sha(spec)
@@ -403,6 +403,29 @@ def main():
                 b = h["bnds"]
                 gin = all(min(lo, hi) <= v <= max(lo, hi) for (lo, hi), v in zip(b, raw)) and len(b) == len(raw)
                 inbox_cases.append(("(%s, %s, %s)" % (coq_building(spec), coq_box_case(h), coq_bool(gin)), spec, comp, h))
+        # the final box recomputed from the initial fit's reduced result (fit_final_model.get_bnds); no row taken over
+        near_ok = None
+        if o.get("alpha_final_type") is not None and o.get("final_bounds_scalar") is not None:
+            sc = o["final_bounds_scalar"]
+            for comp, h in o["final"].items():
+                hi = o["initial"].get(comp)
+                if h["bnds"] is None or h["key"] not in COQ_KEY or hi is None:
+                    continue
+                if hi["stored_key"] != h["key"] or len(hi["x_reduced"]) != len(h["bnds"]):
+                    run.corr_failures.append({"stream": "final_from_initial", "case": {"spec": spec, "component": comp},
+                                              "impl": {"initial_key": hi["stored_key"], "final_key": h["key"]},
+                                              "model": "the final fit did not run on the model class the initial fit was reduced to"})
+                    continue
+                fromini_cases.append(("(%s, %d%%nat, %s, %s, %s, %s, %s)" % (
+                    COQ_KEY[h["key"]], h["nmin"], coq_floats(h["T"]), coq_floats(h["obs"]), fhex(sc),
+                    coq_floats(hi["x_reduced"]), coq_rows(h["bnds"])), spec, comp, dict(h, x_reduced=hi["x_reduced"], scalar=sc)))
+                if h["key"] == gkey and len(o["final"]) == 1:
+                    # hypothesis initial_near of C15_generator_in_box_from_initial_fit, measured
+                    raw = gen_raw(spec)
+                    idx = {"hdd_tidd_cdd": [1, 3], "c_hdd_tidd": [1], "tidd": []}[gkey]
+                    near_ok = all((abs(raw[i]) <= 10 * sc) if hi["x_reduced"][i] == 0 else
+                                  (abs(raw[i] - hi["x_reduced"][i]) <= abs(hi["x_reduced"][i]) * sc) for i in idx)
+        run.dist("generator_near_initial_fit", "n/a (other key or split)" if near_ok is None else str(near_ok))
         for comp, h in o["initial"].items():
             if h["bnds"] is not None and h["key"] is not None and len(h["bnds"]) == 7:
                 initial_cases.append(("(%s, %s, %s)" % (coq_floats(h["T"]), coq_floats(h["obs"]), coq_rows(h["bnds"])), spec, comp, h))
@@ -434,7 +457,8 @@ def main():
     for t, spec, o, m in fit_cases:
         by_spec.setdefault(vlib.sha(spec), []).append(("(AFit %s)" % t, "fit", (spec, o, m)))
     for stream, cases, ctor in (("final_box", final_cases, "AFinalBox"), ("initial_box", initial_cases, "AInitialBox"),
-                                ("gen_in_box", inbox_cases, "AGenInBox"), ("param_gap", gap_cases, "AGap")):
+                                ("gen_in_box", inbox_cases, "AGenInBox"), ("param_gap", gap_cases, "AGap"),
+                                ("final_from_initial", fromini_cases, "AFinalFromInitial")):
         for t, spec, comp, h in cases:
             by_spec.setdefault(vlib.sha(spec), []).append(("(%s %s)" % (ctor, t), stream, (spec, comp, h)))
     for k in by_spec:
